@@ -75,6 +75,8 @@ const EXTREME_TEMPLATES: &[&str] = &[
     "A m\nfn f() = ans\n\"str\"\nf() + 1 m",
     "A\nfn g(x) = x * _\ntrue\ng(B)",
     "B s\nlet k = ans\nfn h() = k + ans\n[1]\nh()",
+    "fn now() -> DateTime\nnow() - now()",
+    "fn datetime(input: String) -> DateTime\ndatetime(\"2000-01-01 00:00:00 UTC\") - datetime(\"2001-01-01 00:00:00 UTC\")",
 ];
 
 const EXTREME_VALUES: &[&str] = &[
@@ -263,7 +265,7 @@ fn g_strategy() -> impl Strategy<Value = G> {
         4 => (idx(), idx(), idx()).prop_map(|(template, a, b)| G::Extreme { template, a, b }),
         3 => (proptest::collection::vec(ins_strategy(), 1..6), proptest::collection::vec((0u8..6, idx(), idx()), 0..3))
             .prop_map(|(ins, corrupt)| G::Program { ins, corrupt }),
-        1 => (0u8..6, 1u8..60).prop_map(|(kind, depth)| G::Nest { kind, depth }),
+        1 => (0u8..8, 1u8..60).prop_map(|(kind, depth)| G::Nest { kind, depth }),
         1 => proptest::collection::vec(any::<u8>(), 1..40).prop_map(G::Bytes),
     ]
 }
@@ -356,7 +358,11 @@ fn build(g: &G) -> (String, &'static str) {
         }
         G::Nest { kind, depth } => {
             let d = *depth as usize;
-            let s = match kind % 6 {
+            let s = match kind % 8 {
+                // very long inputs: tens of thousands of list elements / statements (the VM
+                // addresses constants and jump targets with 16 bits)
+                6 => format!("[{}]", vec!["1"; d * 1200].join(", ")),
+                7 => format!("{}if true then 1 else 2", "1\n".repeat(d * 400)),
                 0 => format!("{}1{}", "(".repeat(d), ")".repeat(d)),
                 1 => format!("{}1{}", "[".repeat(d), "]".repeat(d)),
                 2 => format!("1{}", "!".repeat(d * 10)),
@@ -429,6 +435,16 @@ fn function_body_mentions_ans(text: &str) -> bool {
 
 fn panic_signature(text: &str, loc: &str, msg: &str) -> String {
     let file = loc.rsplit_once(':').map(|(f, _)| f).unwrap_or(loc);
+    if file.ends_with("vm.rs") && text.len() > 30_000 && text.contains("if ") && !msg.contains("constants.len()") {
+        // jump targets are 16-bit offsets into the ever-growing <main> chunk: beyond 65535 bytes
+        // of bytecode a conditional jumps to the wrong place and the VM trips over whatever it
+        // finds there (several different messages, one cause)
+        return "panic:bytecode-offsets-beyond-16-bits".to_string();
+    }
+    if file.ends_with("bytecode_interpreter.rs") && msg.contains("Option::unwrap()") && text.contains("DateTime") && text.contains(" - ") {
+        // a DateTime difference compiled in a session that has no unit `second` (no prelude)
+        return "panic:datetime-difference-without-unit-second".to_string();
+    }
     if file.ends_with("vm.rs") && msg.starts_with("Expected ") && function_body_mentions_ans(text) {
         return "panic:ans-in-function-body:value of another type on the VM stack".to_string();
     }
@@ -448,7 +464,20 @@ fn panic_signature(text: &str, loc: &str, msg: &str) -> String {
     format!("panic:{file}:{m}")
 }
 
+/// VM instructions one C08 input may execute. One instruction on quantities with units costs up
+/// to ~2.5 µs (conversions), so this bounds an input that is stopped by the budget to about
+/// 10 s of CPU time, well below the hang thresholds (20 s for returning evaluations, 90 s for
+/// the watchdog).
+const C08_STEP_BUDGET: u64 = 3_000_000;
+
 fn check_input(text: &str, kind: &str, session: u8, st: &mut Stats) -> CheckResult {
+    set_thread_step_budget(Some(C08_STEP_BUDGET));
+    let r = check_input_inner(text, kind, session, st);
+    set_thread_step_budget(None);
+    r
+}
+
+fn check_input_inner(text: &str, kind: &str, session: u8, st: &mut Stats) -> CheckResult {
     st.eval();
     let (mut ctx, sess) = match session % 3 {
         0 => (fresh_context(), "fresh"),
